@@ -21,7 +21,7 @@ func init() {
 		ID: "C12",
 		Rule: "documents rendered from random syntax trees (hostile string values incl. quotes, backslashes, C0 controls, DEL, non-BMP, block strings with triple quotes and odd indentation; directives on operations, variable definitions, fields, spreads, inline fragments, fragment definitions; " +
 			"fragment variables; comments in every position) are parsed, formatted under every configuration {comments} x {compacted} x indent in {\"\",\" \",\"\\t\",\"    \",\" \\t\"} (builtin / no-description flags rotated), re-parsed and compared through an AST->model adapter " +
-			"(string values byte for byte; quoted and block strings with the same value are equal), and the re-parsed document is formatted again and must give the same text; " +
+			"(string values byte for byte; quoted and block strings with the same value are equal), and the re-parsed document is formatted again and must give the same text; one formatter value used for the document twice must write the same text twice; " +
 			"distinct = distinct (value-kind, directive-position, string-class) feature signatures seen in round-tripped documents; non-trivial = documents with a string value, a directive or a fragment",
 		Assumptions: []string{
 			"model equality ignores positions and comments (the property lists operations, fragments, selections, arguments, values, types, directives)",
@@ -303,6 +303,19 @@ func c12Check(x *core.Ctx, c *core.Case) {
 				reported[sig] = true
 				x.Violate(sig, fmt.Sprintf("[%s] second format:\n%s", cfg, again), "first format:\n"+out)
 			}
+		}
+	}
+	// one formatter used twice: the second document must come out as the first did (no state carried between calls)
+	{
+		cfg := allCfgs(rot, false)[int(core.HashString(src)>>4)%20]
+		var b bytes.Buffer
+		f := formatter.NewFormatter(&b, cfg.opts()...)
+		f.FormatQueryDocument(doc)
+		n := b.Len()
+		f.FormatQueryDocument(doc)
+		x.Count("formatter_reuses")
+		if one, two := b.String()[:n], b.String()[n:]; one != two {
+			x.Violate("formatter-reuse("+cfg.tag()+")", fmt.Sprintf("[%s] second use:\n%s", cfg, two), "first use:\n"+one)
 		}
 	}
 	if x.WantSample() && ft.hostile && len(src) < 400 {
